@@ -170,9 +170,9 @@ RULE = ("random request histories from one PRNG (seed, index): %d write requests
 PROPS = {}
 
 
-def reg(pid, theorems, focus, nq=120, nt=4000, nw=25, depth=1, mixkw=None, extra=None, **more):
+def reg(pid, theorems, focus, nq=480, nt=6000, nw=25, depth=1, mixkw=None, extra=None, **more):
     cfgq = {"nw": nw, "focus": focus, "depth": depth, "mix": mix(**(mixkw or {})), "bytes": 43 in focus,
-            "observe_p": 0.15}
+            "observe_p": 0.25}
     if extra:
         cfgq["extra"] = extra
     cfgt = dict(cfgq, nw=nw + 15, depth=2)
@@ -186,7 +186,7 @@ reg("C04", ["C04_resolve", "C04_prefmap"], K.FACET_OPS["C04"],
     mixkw={"create_we": 16, "delete_we": 10, "add_prefix": 12, "remove_prefix": 10, "move_prefix": 8})
 reg("C05", ["C05_under"], K.FACET_OPS["C05"], mixkw={"create_we": 16, "add_prefix": 10})
 reg("C06", ["C06_create"], K.FACET_OPS["C06"], mixkw={"add_rule": 14, "remove_rule": 4})
-reg("C07", ["C07_net"], K.FACET_OPS["C07"], depth=2, nq=100, mixkw={"add_links": 30, "batch": 20, "create_we": 14})
+reg("C07", ["C07_net"], K.FACET_OPS["C07"], depth=2, nq=320, mixkw={"add_links": 30, "batch": 20, "create_we": 14})
 reg("C08", ["C08_pagelinks"], K.FACET_OPS["C08"], mixkw={"add_links": 30, "batch": 20, "create_we": 14})
 reg("C09", ["token_roundtrip", "ino_sorted", "C09_chunks"], K.FACET_OPS["C09"], mixkw={"add_page": 50, "add_pages": 20, "create_we": 14})
 reg("C10", ["C10_chunks"], K.FACET_OPS["C10"], mixkw={"add_links": 35, "batch": 20, "create_we": 14})
@@ -237,7 +237,7 @@ def _c14_worker(job):
 
 
 def c14_runner(prop, tier, seed, replay):
-    n = 400 if tier == "thorough" else 24
+    n = 600 if tier == "thorough" else 64
     jobs = []
     for i in range(n):
         jobs.append((seed * 100003 + i, {"backend": "f" if i % 3 else "m", "nw": 30 if tier == "thorough" else 18}))
@@ -479,7 +479,7 @@ def _twin_worker(job):
 
 def twin_runner(modes, rule, extra=None):
     def run(prop, tier, seed, replay):
-        n = 600 if tier == "thorough" else 48
+        n = 1500 if tier == "thorough" else 160
         jobs = []
         for i in range(n):
             jobs.append((seed * 100003 + i, {"mode": modes[i % len(modes)], "nw": 28 if tier == "thorough" else 20,
@@ -780,7 +780,7 @@ def _c18_worker(job):
 
 
 def c18_runner(prop, tier, seed, replay):
-    n = 300 if tier == "thorough" else 32
+    n = 800 if tier == "thorough" else 96
     jobs = [(seed * 100003 + i, {"nw": 14 if tier == "thorough" else 9, "maxcuts": 400 if tier == "thorough" else 40})
             for i in range(n)]
     results = pool_map(_c18_worker, jobs)
